@@ -312,12 +312,75 @@ def check_threshold_core(ctx, prefix="C04"):
                             break
                     if b.local_ty(l) in ("u32", "usize", "u64") and l != THR:
                         counter = l
+    count_up = False
+    if counter is not None and len(b.defs.get(counter, [])) == 1:
+        # `needed = threshold - count`: the zero test on `needed` is `count >= threshold` on the count-up variable
+        d = b.single_def(counter)
+        rv_ = d.node["rv"] if (d and d.kind == "assign") else None
+        sub = None
+        if rv_ and rv_["k"] == "binop" and rv_["op"].startswith("Sub"):
+            sub = rv_
+        elif rv_ and rv_["k"] == "use" and op_place(rv_["op"]) is not None and proj_path(op_place(rv_["op"])) == (("f", "0"),):
+            dt = b.single_def(op_place(rv_["op"])["l"])
+            if dt and dt.kind == "assign" and dt.node["rv"]["k"] == "binop" and dt.node["rv"]["op"].startswith("Sub"):
+                sub = dt.node["rv"]
+        if sub is not None and root_ids(b, sub["a"]) == frozenset([("param", THR, ())]) and op_place(sub["b"]) is not None:
+            l = op_place(sub["b"])["l"]
+            for _ in range(12):
+                d2 = b.single_def(l)
+                r2 = d2.node["rv"] if (d2 and d2.kind == "assign") else None
+                q = op_place(r2["op"]) if (r2 and r2["k"] in ("use", "cast")) else None
+                if q is not None and not q["p"] and not (1 <= q["l"] <= b.argc):
+                    l = q["l"]
+                else:
+                    break
+            if b.local_ty(l) in ("u32", "usize", "u64") and len(b.defs.get(l, [])) >= 2:
+                counter, count_up = l, True
     if counter is None:
-        ctx.bad(prefix + "/D5", "Ok return guarded by counter == 0", "no dominating `counter == 0` (or `!(counter > 0)`) fact on the Ok return")
+        # the other spelling: count the good signatures up from 0 and require `count >= threshold` on the Ok path
+        for ob in ok_blocks:
+            for (e, op, x, y) in dominating_cmps(b, ob):
+                for (u, v, o) in ((x, y, op), (y, x, {"Lt": "Gt", "Le": "Ge", "Gt": "Lt", "Ge": "Le", "Eq": "Eq", "Ne": "Ne"}[op])):
+                    if o not in ("Ge", "Eq") or root_ids(b, v) != frozenset([("param", THR, ())]):
+                        continue
+                    p = op_place(u)
+                    if p is None or p["p"]:
+                        continue
+                    l = p["l"]
+                    for _ in range(12):
+                        d = b.single_def(l)
+                        rv_ = d.node["rv"] if (d and d.kind == "assign") else None
+                        q = op_place(rv_["op"]) if (rv_ and rv_["k"] in ("use", "cast")) else None
+                        if q is not None and not q["p"] and not (1 <= q["l"] <= b.argc):
+                            l = q["l"]
+                        else:
+                            break
+                    if b.local_ty(l) in ("u32", "usize", "u64") and len(b.defs.get(l, [])) >= 2:
+                        counter, count_up = l, True
+    if counter is None:
+        ctx.bad(prefix + "/D5", "Ok return guarded by counter == 0", "no dominating `counter == 0` (or `!(counter > 0)`) fact, and no `count >= threshold` fact, on the Ok return")
         return
-    ctx.ok(prefix + "/D5", "Ok return guarded by counter == 0", "Ok return is edge-dominated by `%s == 0`" % b.local_name(counter), b.at(ok_blocks[0]))
+    if count_up:
+        ctx.ok(prefix + "/D5", "Ok return guarded by counter == 0", "Ok return is edge-dominated by `%s >= threshold` (count-up form)" % b.local_name(counter), b.at(ok_blocks[0]))
+    else:
+        ctx.ok(prefix + "/D5", "Ok return guarded by counter == 0", "Ok return is edge-dominated by `%s == 0`" % b.local_name(counter), b.at(ok_blocks[0]))
     inits, decs, other = [], [], []
     for d in b.defs.get(counter, []):
+        if count_up:
+            rv = d.node["rv"] if d.kind == "assign" else None
+            if rv and rv["k"] == "use" and (op_const(rv["op"]) or {}).get("int") == 0:
+                inits.append(d)
+            elif rv and rv["k"] == "binop" and rv["op"].startswith("Add") and const_int(b, rv["b"]) == 1 and op_place(rv["a"]) and op_place(rv["a"])["l"] == counter:
+                decs.append(d)
+            elif rv and rv["k"] == "use" and op_place(rv["op"]) is not None and proj_path(op_place(rv["op"])) == (("f", "0"),):
+                dt = b.single_def(op_place(rv["op"])["l"])
+                if dt and dt.kind == "assign" and dt.node["rv"]["k"] == "binop" and dt.node["rv"]["op"].startswith("Add") and const_int(b, dt.node["rv"]["b"]) == 1:
+                    decs.append(d)
+                else:
+                    other.append(d)
+            else:
+                other.append(d)
+            continue
         if d.kind != "assign":
             other.append(d)
             continue
@@ -342,8 +405,8 @@ def check_threshold_core(ctx, prefix="C04"):
             continue
         other.append(d)
     ctx.inst(prefix + "/D4", "counter initialised from threshold only", len(inits) == 1 and not other,
-             "%d initialisation(s) from `threshold`, %d decrement(s), %d other assignment(s)" % (len(inits), len(decs), len(other)))
-    ctx.inst(prefix + "/D4", "counter has a decrement", len(decs) >= 1, "%d decrement site(s)" % len(decs))
+             "%d initialisation(s) from %s, %d step(s) by one, %d other assignment(s)" % (len(inits), "0 (count-up form)" if count_up else "`threshold`", len(decs), len(other)))
+    ctx.inst(prefix + "/D4", "counter has a decrement", len(decs) >= 1, "%d step site(s)" % len(decs))
     pkv = b.calls_named(PK_VERIFY)
     for d in decs:
         # dominated by Some-edge of authorised.get(sig key id) and Ok-edge of PublicKey::verify(that key, msg, that sig)
